@@ -10,7 +10,7 @@ LEVEL = 'model_checking'
 RULE = ('E1 enumeration of material cards: Z = 1..118 (all) x A in {000, 001, a typical A, 294}; then over a '
         '6-nuclide subset: library suffix {none, .70c, .80c}, keyword entries (nlib=70c, gas=1) before / '
         'between / after the pairs, 1-3 nuclides, fraction spellings {1., 0.5, 2.5e-2, 1e-30, 4}, all-positive '
-        '/ all-negative / mixed signs, mass or atom cell density; oracle: independent periodic table; '
+        '/ all-negative / mixed signs, mass or atom cell density; two-card decks with MT / MX / MPN / Mnn / MODE cards, comments, continuation lines, upper case around the cards; oracle: independent periodic table; '
         'nuclides in card order with symbol+A (-NAT for 000); DENSITY |rho| with NB_ATOM iff entries positive '
         'and values |entries|, or POINT_WISE with concentrations proportional to the fractions and summing to '
         'rho; mixed signs -> error; non-trivial = card with a nuclide; distinct = deck text')
@@ -112,7 +112,24 @@ def b_two(ch):
     st.surfs = ['1 so 5', '2 so 8', '3 so 11']
     c1 = 'm1 ' + ' '.join('%d%03d %s' % e for e in e1)
     c2 = 'm2 ' + ' '.join('%d%03d %s' % e for e in e2)
+    # other data cards whose mnemonic starts with M, comments, continuation lines, upper case
+    clutter = ch.choose('clutter', ['none', 'mt1', 'mx1', 'mpn1', 'm10', 'm21', 'mode', 'comment', 'continuation',
+                                    'ampersand', 'uppercase', 'tabs-spaces', 'inline-comment'])
+    extra = {'mt1': 'mt1 lwtr.10t', 'mx1': 'mx1:n j 8017', 'mpn1': 'mpn1 0 8016', 'm10': 'm10 8017 1',
+             'm21': 'm21 26058 1', 'mode': 'mode n p', 'comment': 'c m2 8017 1'}.get(clutter)
+    if clutter == 'continuation':
+        c1 = 'm1 %d%03d %s\n      %d%03d %s' % (e1[0] + e1[1])
+    elif clutter == 'ampersand':
+        c1 = 'm1 %d%03d %s &\n%d%03d %s' % (e1[0] + e1[1])
+    elif clutter == 'uppercase':
+        c1, c2 = c1.replace('m1', 'M1'), c2.replace('m2', 'M2')
+    elif clutter == 'tabs-spaces':
+        c1, c2 = c1.replace(' ', '   '), c2.replace(' ', '  ')
+    elif clutter == 'inline-comment':
+        c1 = 'm1 %d%03d %s $ 8017 5\n      %d%03d %s $ end' % (e1[0] + e1[1])
     st.data = [c1, c2] if order == 'm1-first' else [c2, c1]
+    if extra:
+        st.data.insert(ch.choose('clutter-at', [1, 0, 2]), extra)
     st.multi = [(1, e1, rho1), (3, e2, rho2)] + ([(4, e1, rho2)] if third else [])
     st.entries, st.rho = e1, rho1
     return st
@@ -120,7 +137,7 @@ def b_two(ch):
 
 def scenarios(tier):
     return [Scn('zaid', b_zaid, None, None, 'all Z x 4 mass numbers'),
-            Scn('two-materials', b_two, None, None, 'two cards, coinciding or different cell densities'),
+            Scn('two-materials', b_two, None, None, 'two cards, coinciding or different cell densities, other M* cards / comments / continuations around them'),
             Scn('forms', b_forms, 5 if tier == 'quick' else 7, 7, 'suffixes, keywords, counts, spellings, signs, densities')]
 
 
